@@ -389,6 +389,9 @@ func runWorker(id, tier string, i, n int, out string) int {
 			if len(ck.Flows) > 0 {
 				RunFlows(c, ck.Flows...)
 			}
+			for _, s := range WBCaps() {
+				c.Cap(s)
+			}
 		}
 	}()
 	vrt.CurrentCase = ""
